@@ -18,7 +18,7 @@ import (
 	"time"
 )
 
-var VerifRoot = "/verif"
+var VerifRoot = envRoot()
 
 type finding struct {
 	prop, sig, what string
@@ -728,4 +728,11 @@ func jsonEqual(a, b json.RawMessage) bool {
 	xa, _ := json.Marshal(x)
 	ya, _ := json.Marshal(y)
 	return bytes.Equal(xa, ya)
+}
+
+func envRoot() string {
+	if r := os.Getenv("VERIF_ROOT"); r != "" {
+		return r
+	}
+	return "/verif"
 }
